@@ -116,3 +116,91 @@ func c15CutOffWithDepartedHosts(ev *vlib.Evidence, bin string, idx int) {
 		}
 	}
 }
+
+// c15StatusAfterOddRegistrations: correctly signed registrations whose
+// self-reported node description is odd (versions without the usual
+// structure, unknown kinds and networks, odd payouts), and only then the
+// first pool_status / health request (the status is cached for a minute, so
+// it has to be the first one to see these hosts).
+func c15StatusAfterOddRegistrations(ev *vlib.Evidence, bin string, idx int) {
+	r := vlib.Rand("C15-status-odd", idx)
+	dir, _ := os.MkdirTemp("", "verif-c15s-")
+	defer os.RemoveAll(dir)
+	addr := fmt.Sprintf("127.0.0.1:%d", vlib.FreePort())
+	p, err := vlib.StartProc(filepath.Join(dir, "pool.log"), []string{"HOME=" + dir}, bin, "pool", "--store=memory", "--bind", addr)
+	if err != nil || !p.WaitListening(addr, 30*time.Second) {
+		if p != nil {
+			p.Kill(false)
+		}
+		ev.Inconclusive("pool-start")
+		return
+	}
+	defer p.Kill(false)
+	versions := []string{"no-slash", "", "/", "a/", "/b", "Geth", "x/y/z/w/v", "\u0000", strings.Repeat("v", 5000), "Parity-Ethereum//v2", "名前/1"}
+	for i := 0; i < 4; i++ {
+		id := vlib.NewIdentity("c15status-host", idx*4+i)
+		s, err := newBinSession(addr, id)
+		if err != nil {
+			ev.Inconclusive("ws-dial")
+			return
+		}
+		defer s.c.Close()
+		req := vlib.ConnectReq(true, "geth", "enode://"+id.NodeID+"@203.0.113.9:30303", vlib.Pick(r, "", "0xabc", "not-an-address"))
+		req.NodeInfo.Version = versions[r.Intn(len(versions))]
+		req.NodeInfo.Kind = ethnode.NodeKind(r.Intn(9) - 2)
+		req.NodeInfo.Network = ethnode.NetworkID(vlib.Pick(r, 1, 0, -5, 61, 1337, 2147483647))
+		req.NodeInfo.EthProtocol = vlib.Pick(r, "", "63", "x", "0x")
+		req.VipnodeVersion = versions[r.Intn(len(versions))]
+		if _, _, _, _, ok := s.call("vipnode_connect", req); !ok {
+			if ex, _ := p.Exited(); ex {
+				sig, excerpt := vlib.CrashSignature(filepath.Join(dir, "pool.log"))
+				ev.Violate("pool-process-died:"+sig, map[string]interface{}{"after": "odd registration", "version": truncStr(req.NodeInfo.Version, 60), "log": truncStr(excerpt, 500)})
+				return
+			}
+		}
+	}
+	ev.Case(fmt.Sprintf("status-after-odd-registrations idx=%d", idx), true)
+	ev.Count("status-after-odd-registrations", 1)
+	for _, how := range []string{"http-rpc", "health", "ws"} {
+		var body string
+		var err error
+		switch how {
+		case "http-rpc":
+			var resp *http.Response
+			resp, err = (&http.Client{Timeout: 20 * time.Second}).Post("http://"+addr+"/", "application/json", strings.NewReader(`{"jsonrpc":"2.0","id":3,"method":"pool_status","params":[]}`))
+			if err == nil {
+				b, _ := io.ReadAll(resp.Body)
+				resp.Body.Close()
+				body = string(b)
+			}
+		case "health":
+			var resp *http.Response
+			resp, err = (&http.Client{Timeout: 20 * time.Second}).Get("http://" + addr + "/health")
+			if err == nil {
+				b, _ := io.ReadAll(resp.Body)
+				resp.Body.Close()
+				body = `{"id":3,"result":` + string(b) + `}`
+			}
+		case "ws":
+			c, derr := wsDial(addr)
+			err = derr
+			if derr == nil {
+				c.WriteMessage(1, []byte(`{"jsonrpc":"2.0","id":3,"method":"pool_status","params":[]}`))
+				c.SetReadDeadline(time.Now().Add(20 * time.Second))
+				_, data, rerr := c.ReadMessage()
+				err = rerr
+				body = string(data)
+				c.Close()
+			}
+		}
+		if ex, _ := p.Exited(); ex {
+			sig, excerpt := vlib.CrashSignature(filepath.Join(dir, "pool.log"))
+			ev.Violate("pool-process-died:"+sig, map[string]interface{}{"after": "pool_status via " + how, "log": truncStr(excerpt, 500)})
+			return
+		}
+		if err != nil || !strings.Contains(body, `"result"`) || !strings.Contains(body, "active_hosts") {
+			ev.Violate("request-without-reply:pool_status:"+how, map[string]interface{}{"err": fmt.Sprint(err), "reply": truncStr(body, 300)})
+			return
+		}
+	}
+}
